@@ -223,6 +223,9 @@ func differentKey(w Witness, ref verdict) string {
 // the reference oracle. status: held | violated | masked | ambiguous | inconclusive.
 func evalPair(rc *rec, w Witness) (status, key, what string) {
 	fl := parseFlags(w.Flags)
+	if cyclesUnsafe.Load() && (hasCycle(w.G) || hasCycle(w.H)) {
+		return "unsafe", "", ""
+	}
 	ref := compare(w.G, w.H, fl)
 	rc.say("pair class=%s flags=%s (ignoreFields=%v ignoreNames=%v ignoreTags=%v)", w.Class, fl, fl.F, fl.N, fl.T)
 	if w.D != nil {
@@ -299,6 +302,8 @@ func doPair(rc *rec, w Witness) string {
 		rc.Count("equal_pairs_masked_by_hash_nondeterminism", 1)
 	case "skipped":
 		rc.Count("pairs_skipped_cycle_without_object", 1)
+	case "unsafe":
+		rc.Inconclusive("cyclic graph not evaluated in-process: a canary child crashed or hung on a cyclic graph")
 	case "ambiguous":
 		rc.Count("pairs_not_judged_documentation_silent", 1)
 		rc.Seen("silent_areas", key+" "+what)
@@ -346,6 +351,9 @@ func nondetKey(g *Graph) string {
 // and hashes a second, identically constructed value.
 func doDeterminism(rc *rec, w Witness) (stable [8]bool) {
 	w.Check = "determinism"
+	if skipCyclic(rc, w.G) {
+		return
+	}
 	reps := w.Reps
 	if reps == 0 {
 		reps = 20
@@ -377,7 +385,7 @@ func doDeterminism(rc *rec, w Witness) (stable [8]bool) {
 		rc.Count("hash_repeat_calls", reps)
 		h2, _ := safeHash(b2.root.Type, fl)
 		if h2 != first {
-			if u2, _ := unstable(b2.root.Type, fl, reps); !u2 {
+			if u2, _ := unstable(b2.root.Type, fl, reps); !u2 && !maskByMetaOrder(fl, w.G) {
 				ww := w
 				ww.Flags = fl.String()
 				ww.Class = "identical"
@@ -416,6 +424,9 @@ func firstDiffField(a, b []snapLine) string {
 // doDupMutation copies, mutates the copy, and checks the original with the snapshot walker.
 func doDupMutation(rc *rec, w Witness) {
 	w.Check = "dup-mutation"
+	if skipCyclic(rc, w.G) {
+		return
+	}
 	b := build(w.G)
 	before := snapHash(b.root)
 	att, dt, p := safeDup(b, w.API)
@@ -461,6 +472,9 @@ func doDupMutation(rc *rec, w Witness) {
 // doDupEqual checks that the copy is structurally equal, deterministic, and records sharing.
 func doDupEqual(rc *rec, w Witness) {
 	w.Check = "dup-equal"
+	if skipCyclic(rc, w.G) {
+		return
+	}
 	b := build(w.G)
 	att, dt, p := safeDup(b, w.API)
 	rc.Eval(1)
